@@ -142,7 +142,8 @@ CLAIMS.update({
              "each atom overwrites ignore_case/normalize so the result is independent of the matcher's previous flags; match_list is a permutation of the matching inputs in "
              "non-increasing score order with equal scores kept in input order; a multi-column pattern (MultiPattern::score, companion file C15_Multi) matches iff every column's pattern "
              "matches that column's text - column k against text k whether or not other columns are empty - and its score is the sum of the columns' scores (C15_multi, "
-             "C15_multi_empty_column). Tied to the code by correspondence on random patterns sharing one Matcher, and on MultiPatterns of 1-3 columns in which every subset of the columns has a pattern.",
+             "C15_multi_empty_column), an all-empty multi-column pattern gives every item score 0 (C15_multi_all_empty; C15_empOk discharges the hypothesis EmpOk of the worker-protocol theorems of C06 / C07 "
+             "for the scoring function the worker uses). Tied to the code by correspondence on random patterns sharing one Matcher, and on MultiPatterns of 1-3 columns in which every subset of the columns has a pattern.",
         note="Trusted: Lean kernel, axioms propext/Classical.choice/Quot.sound, harness+driver; the matcher calls are those of C01-C05 (same model). MultiPattern::score is modelled (multiEval) and compared on the N lines; the worker's use of it is covered by the nucleo-level checks."),
     "C08": dict(
         technique="Lean 4 inductive invariant over all interleavings of a small-step model at atomic-operation granularity + replay of real seeded schedules on the model",
